@@ -232,6 +232,9 @@ CloseDone ==                        \* close(c.done)
     /\ cl.closer = "predone"
     /\ cl' = [cl EXCEPT !.doneClosed = TRUE, !.closer = "waiting"]
     /\ UNCHANGED <<cfg, cs, ents, pending, lp, net, dgs, rxn, ctxDone, now>>
+CloseAgain ==                       \* any further Close: the flag is already set, nothing happens, it returns at once
+    /\ cl.closer # "idle"
+    /\ UNCHANGED vars
 CloseReturn ==                      \* wg.Wait() returns once the receive loop has exited
     /\ cl.closer = "waiting" /\ lp.pc = "exited"
     /\ cl' = [cl EXCEPT !.closer = "returned"]
